@@ -132,6 +132,20 @@ func runFixtures(c *core.Ctx, engines ...string) {
 			fb, bb, _ := sc.Find("R07.4", "BadView|fs-result")
 			c.FixtureResult("route:GoodView", false, !fg || bg)
 			c.FixtureResult("route:BadView", true, fb && bb)
+		case "pool":
+			var fl []*ssa.Function
+			for _, n := range []string{"GoodPool", "BadPool"} {
+				if f := fn(n); f != nil {
+					fl = append(fl, f)
+				} else {
+					c.Hard("fixture function %s missing", n)
+				}
+			}
+			r17NoPool(sc, fp, fl)
+			fg, bg, _ := sc.Find("R17.6", "GoodPool|pool-put#1")
+			fb, bb, _ := sc.Find("R17.6", "BadPool|pool-put#1")
+			c.FixtureResult("pool:GoodPool", false, !fg || bg)
+			c.FixtureResult("pool:BadPool", true, fb && bb)
 		case "paging":
 			for _, tn := range []string{"GoodDir", "BadDir"} {
 				n := fp.Named("", tn)
